@@ -73,6 +73,7 @@ type Frame struct {
 	trace    []int
 	isDefer  bool
 	retHook  func(st *State, results []Val) // continuation for inlined deferred calls
+	extraEnv map[string]Val // captured variables of a closure verified on its own (entry values)
 }
 
 func (f *Frame) clone() *Frame {
